@@ -1,5 +1,6 @@
 (** Correspondence and executable property check for C05 (statement level). *)
 From Coq Require Import List String Ascii ZArith Bool Arith NArith.
+From GM Require Corr.AnaCross.
 From GM Require Import Base.Result Facts.GoFacts Facts.Ana Model.Enums Model.Fields Model.Classify Model.SqlTypes Model.Names Model.Dart Model.Crud.
 Import ListNotations.
 Local Open Scope string_scope.
@@ -173,7 +174,7 @@ Section Generic.
   Fixpoint mism_from (n : N) (cases : list A) : list N :=
     match cases with [] => [] | c :: r => if f c then mism_from (N.succ n) r else n :: mism_from (N.succ n) r end.
 End Generic.
-Definition mismatches := mism_from chk_model 0%N.
+Definition mismatches := mism_from (fun c => AnaCross.ana_cross (c5_prog c) (c5_ana c) && chk_model c) 0%N.
 Definition prop_failures := mism_from chk_prop 0%N.
 
 (** for the replays: the functions the model and the file disagree on, and the defective statements *)
